@@ -155,6 +155,17 @@ STRENGTHENED = {
     'C17_m14': 'members behind the greedy field in the XML, removed by rules placed before or after the greedy rule',
     'C18_m14': 'bytes values draw from every byte value except 0x27; floor of 150 distinct escape sequences rendered',
     'C20_m14': 'four -I directories, three of them holding same-named different files, each input alone under five hash seeds',
+    # round 8
+    'C06_m15': 'every input is also decoded into a long-lived message of its type; scripted histories of valid inputs (arrays of different kinds sharing a sizer grow, shrink to nothing, grow) - a used message whose decode returned has to encode',
+    'C11_m15': 'a quarter of the sources are long-lived decode targets (va, then vb, then va again: a union returns to an arm it held before)',
+    'C15_m15': 'sack definitions spelled inside a namespace (used as ns::K, emitted as ns__K) and as typedefs of anonymous struct / union / enum',
+    'C15_m16': 'more optional members of struct / union type in the generated definition sets (60 % of the optional members when a composite exists)',
+    'C16_m15': "arrangement 'dotted-stems': file stems with dots (f0.v2.x.prophy), judged on model, files written and the generated C++ include chain",
+    'C16_m16': "arrangement 'blank-in-include-path': includes reached through a directory whose name holds a blank",
+    'C17_m15': 'isar constants spelled with bitMaskOr / shiftLeft nested in themselves and in each other (isar-only text of an IR constant), used as array sizes',
+    'C17_m16': "a counted array in the XML (a plain integer of the IR as its length field) made a fixed array by a 'static' rule",
+    'C20_m15': 'several sack headers in one run (alone vs together, both orders) that share a union and a namespaced struct through a common include',
+    'C20_m16': 'same scenario: the second header takes <types.h> from the -I directory while the first header has a different sibling types.h',
 }
 
 
